@@ -1,7 +1,13 @@
 /-
-C10 — generated obligations: every seed-flow program extracted from the current numqi source tree
-(`NumqiModel/Generated/SeedPrograms.lean`, rewritten by `harness/c10.py:translate` before every build)
-is seed-closed, hence reproducible from an integer seed by `Numqi.C10.noninterference`.
+C10 — generated obligations: every seed-flow program extracted from the **nine anchored files** of the current numqi
+source tree (`random/_internal.py`, `random/_spf2.py`, `random/_public.py`, `sim/state.py`, `sim/circuit.py`, `sim/clifford.py`,
+`entangle/cha.py`, `entangle/pureb.py`, `optimize/_internal.py`; 40 functions / methods / classes on the pinned tree, listed by name in
+`harness/c10.py:EXPECTED_PROGRAMS`) is seed-closed, hence reproducible from an integer seed by `Numqi.C10.noninterference`.
+`NumqiModel/Generated/SeedPrograms.lean` is rewritten by `harness/c10.py:translate` before every build.
+NOT covered by this obligation: the eight seeded functions outside those files (`numqi.utils.get_purification`,
+`entangle.pureb_quantum.get_mps_dicke_transform_matrix`, `matrix_space.get_completed_entangled_subspace` — translated and closed;
+`unique_determine.check_UD`, `_check_UD_one`, `check_UD_is_UD`, `_find_optimal_UD_one`, `find_optimal_UD` — translated and NOT closed,
+reported as findings); their verdicts are in the evidence only.
 -/
 import NumqiProps.C10
 import NumqiModel.Generated.SeedPrograms
@@ -9,8 +15,8 @@ import NumqiModel.Generated.SeedPrograms
 namespace Numqi.C10
 open Numqi Numqi.SeedFlow
 
-/-- **Every function of the current source tree that takes a seed is seed-closed** (generated obligation:
-the list is rewritten by the translator before every build). -/
+/-- **Every function of the nine anchored files that takes a seed (or a generator, or touches one) is seed-closed**
+(generated obligation: the list is rewritten by the translator before every build). -/
 theorem seedClosed_all :
     ∀ p ∈ Generated.programs, seedClosed Generated.programs.length p = true := by decide +kernel
 
